@@ -9,6 +9,16 @@ From Mistletoe Require Import Base.Sx Base.PyStr Base.PyText Model.Block Proofs.
 Import ListNotations.
 Local Open Scope Z_scope.
 
+(* one inline element of a one-line paragraph (leaf FOne): a struck-through phrase, a backslash escape, an image *)
+Inductive inl := IStrike (w : str) | IEsc (c : Z) | IImg (w dest : str).
+Definition inl_text (x : inl) : str :=
+  match x with
+  | IStrike w => [126; 126] ++ w ++ [126; 126]
+  | IEsc c => [92; c]
+  | IImg w d => [33; 91] ++ w ++ [93; 40] ++ d ++ [41]
+  end.
+Definition one_body (pre : str) (x : inl) (post : str) : str := pre ++ inl_text x ++ post.
+
 Inductive ftree :=
 | FPara (c : Z) (body : str) (more : list str)       (* the first line c :: body, then the continuation lines *)
 | FFence (ch : Z) (n : nat) (content : list sline)      (* fence ch^n, the content lines, the same fence *)
@@ -21,7 +31,8 @@ Inductive ftree :=
 | FLink (c0 : Z) (pre w dest post : str)                             (* a one-line paragraph: c0 :: pre, [w](dest), post *)
 | FSent (c0 : Z) (t0 : str) (gs : list mseg)                         (* a one-line paragraph: c0 :: t0, then emphasised phrases and links in any order, each with the text after it *)
 | FTick (c0 : Z) (pre code post : str)
-| FBrk (c : Z) (body : str) (k : nat) (more : list (str * nat)).                              (* a one-line paragraph: c0 :: pre, `code`, post - the code of any characters but backticks and regex triggers *)
+| FBrk (c : Z) (body : str) (k : nat) (more : list (str * nat))
+| FOne (c0 : Z) (pre : str) (x : inl) (post : str).                              (* a one-line paragraph: c0 :: pre, `code`, post - the code of any characters but backticks and regex triggers *)
 
 (* the text of an FEm line after its first character *)
 Definition em_run (ch : Z) (double : bool) : str := if double then [ch; ch] else [ch].
@@ -68,6 +79,7 @@ Fixpoint spell (t : ftree) : list sline :=
   | FSent c0 t0 gs => [SLine 0 c0 (t0 ++ mbody gs)]
   | FTick c0 pre code post => [SLine 0 c0 (tick_body pre code post)]
   | FBrk c body k more => map (fun l => SLine 0 (hd 0 l) (tl l)) (brk_lines ((c :: body, k) :: more))
+  | FOne c0 pre x post => [SLine 0 c0 (one_body pre x post)]
   end.
 Definition spell_seq (ts : list ftree) : list sline := join_blank (map spell ts).
 Definition text_of (ls : list sline) : list str := map render_line ls.
@@ -109,6 +121,7 @@ Section Mode.
     | FSent c0 t0 gs => PParagraph ln [c0 :: (t0 ++ mbody gs) ++ [10]]
     | FTick c0 pre code post => PParagraph ln [c0 :: tick_body pre code post ++ [10]]
     | FBrk c body k more => PParagraph ln (nl_lines (brk_lines ((c :: body, k) :: more)))
+    | FOne c0 pre x post => PParagraph ln [c0 :: one_body pre x post ++ [10]]
     end.
   Fixpoint pre_seq (ln : Z) (ts : list ftree) : list pre :=
     match ts with
@@ -120,7 +133,7 @@ End Mode.
 (* Paragraph.parse_setext after the block *)
 Fixpoint st_after (st : pstate) (t : ftree) : pstate :=
   match t with
-  | FPara _ _ _ | FFence _ _ _ | FHead _ _ _ | FRule _ _ | FEm _ _ _ _ _ _ | FLink _ _ _ _ _ | FSent _ _ _ | FTick _ _ _ _ | FBrk _ _ _ _ => st
+  | FPara _ _ _ | FFence _ _ _ | FHead _ _ _ | FRule _ _ | FEm _ _ _ _ _ _ | FLink _ _ _ _ _ | FSent _ _ _ | FTick _ _ _ _ | FBrk _ _ _ _ | FOne _ _ _ _ => st
   | FQuote _ => mkPs true
   | FItem _ _ ts => fold_left st_after ts st
   | FMore _ _ ts _ next => st_after (fold_left st_after ts st) next
@@ -129,7 +142,7 @@ Definition st_seq (st : pstate) (ts : list ftree) : pstate := fold_left st_after
 
 Fixpoint depth (t : ftree) : nat :=
   match t with
-  | FPara _ _ _ | FFence _ _ _ | FHead _ _ _ | FRule _ _ | FEm _ _ _ _ _ _ | FLink _ _ _ _ _ | FSent _ _ _ | FTick _ _ _ _ | FBrk _ _ _ _ => 0%nat
+  | FPara _ _ _ | FFence _ _ _ | FHead _ _ _ | FRule _ _ | FEm _ _ _ _ _ _ | FLink _ _ _ _ _ | FSent _ _ _ | FTick _ _ _ _ | FBrk _ _ _ _ | FOne _ _ _ _ => 0%nat
   | FQuote ts | FItem _ _ ts => S (fold_right (fun t m => Nat.max (depth t) m) 0%nat ts)
   | FMore _ _ ts _ next => Nat.max (S (fold_right (fun t m => Nat.max (depth t) m) 0%nat ts)) (depth next)
   end.
